@@ -161,6 +161,9 @@ class BoundedTypesRemover(engines.engine.Engine, CompilerMixin):
         em = env.expression_manager
         tm = env.type_manager
         new_problem = Problem(f"{problem.name}_{self.name}", env)
+        new_problem.epsilon = problem.epsilon
+        new_problem.discrete_time = problem.discrete_time
+        new_problem.self_overlapping = problem.self_overlapping
         new_problem.add_objects(problem.all_objects)
 
         int_type = tm.IntType()
